@@ -53,6 +53,7 @@ def _alarm(signum, frame):
 
 def classify(e: BaseException, zone_level=False) -> str:
     if isinstance(e, Hang):
+        HANGS["n"] += 1
         return "HANG"
     if isinstance(e, dns.exception.FormError):
         return "FormError"
@@ -65,10 +66,14 @@ def classify(e: BaseException, zone_level=False) -> str:
     return "FOREIGN:" + type(e).__name__
 
 
+HANGS = {"n": 0}
+
+
 def guarded(fn, zone_level=False):
     """returns (outcome class, value, exception)"""
     signal.signal(signal.SIGALRM, _alarm)
-    signal.alarm(10)
+    # once a few hangs were seen the budget per call is cut so that the run still ends in time
+    signal.alarm(10 if HANGS["n"] < 3 else 2)
     try:
         v = fn()
         return "ok", v, None
